@@ -216,6 +216,13 @@ def build_plans(world):
         return [{"op": "dump", "k": obj, "ext": True, "tag": tag}, {"op": "write", "k": obj, "dir": "$ROOT/out", "name": "snap.conf", "readback": True, "tag": tag + "w"}]
     # the very first observation takes the listings and values BEFORE it asks for tags and path; the regular
     # snapshots ask the other way round - both must agree
+    # before anything was asked or written: the object as override and as base of a merge (repeated at the very end)
+    ops.append({"op": "merge", "o": 6, "usr": 1, "etc": obj, "need": ["usr", "etc"], "tag": "m_pre"})
+    ops.append({"op": "dump", "k": 6, "ext": False, "tag": "m_pre_dump"})
+    ops.append({"op": "free", "k": 6})
+    ops.append({"op": "merge", "o": 6, "usr": obj, "etc": 1, "need": ["usr", "etc"], "tag": "m_pre"})
+    ops.append({"op": "dump", "k": 6, "ext": False, "tag": "m_pre_dump"})
+    ops.append({"op": "free", "k": 6})
     # before anything was asked: what the untouched object writes (the listings below use the getters themselves)
     ops.append({"op": "write", "k": obj, "dir": "$ROOT/out", "name": "untouched.conf", "readback": True, "tag": "pre"})
     ops.append({"op": "dump", "k": obj, "ext": True, "order": 1, "tag": "dfirst"})
@@ -243,6 +250,12 @@ def build_plans(world):
                     e[f] = obj
             e["tag"] = "r%d" % n
             ops.append(e)
+    ops.append({"op": "merge", "o": 6, "usr": 1, "etc": obj, "need": ["usr", "etc"], "tag": "m_post"})
+    ops.append({"op": "dump", "k": 6, "ext": False, "tag": "m_post_dump"})
+    ops.append({"op": "free", "k": 6})
+    ops.append({"op": "merge", "o": 6, "usr": obj, "etc": 1, "need": ["usr", "etc"], "tag": "m_post"})
+    ops.append({"op": "dump", "k": 6, "ext": False, "tag": "m_post_dump"})
+    ops.append({"op": "free", "k": 6})
     if hist_member is not None:
         ops.append({"op": "historyMember", "h": 0, "release": 4})
         ops.append({"op": "freeHistory", "h": 0})
@@ -274,6 +287,8 @@ def check(world, plans, results):
     w0 = canon(strip_volatile(bytag["d0w"][0]))
     if bytag.get("pre") and bytag["pre"][0].get("rc") == 0 and bytag["pre"][0].get("bytes") != bytag["d0w"][0].get("bytes"):
         v.fail("mutated:first-listing", "the object wrote %d bytes before anything was asked and %d bytes after the first complete listing" % (len(bytag["pre"][0].get("bytes") or ""), len(bytag["d0w"][0].get("bytes") or "")))
+    if bytag.get("m_pre_dump") and bytag.get("m_post_dump") and canon(strip_volatile(bytag["m_pre_dump"])) != canon(strip_volatile(bytag["m_post_dump"])):
+        v.fail("mutated:as-merge-input", "a merge with the object as input gives another result after the queries and writes than before them: %s" % first_diff({"m": bytag["m_pre_dump"]}, {"m": bytag["m_post_dump"]}))
     if bytag.get("fresh") and bytag["fresh"][0].get("bytes") != bytag["d0w"][0].get("bytes"):
         v.fail("written:target", "econf_writeFile over an existing longer file and into a new file produce different bytes (%d vs %d)" % (len(bytag["d0w"][0].get("bytes") or ""), len(bytag["fresh"][0].get("bytes") or "")))
     kinds = set()
